@@ -1,0 +1,12 @@
+//go:build verif
+
+package markers
+
+// Contracts for the deductive verifier in /verif (comment-only file).
+
+//@ spec func markEq(a errorMark, b errorMark) bool = a.msg == b.msg && len(a.types) == len(b.types) && (forall i int :: 0 <= i && i < len(a.types) ==> tmEq(a.types[i], b.types[i]))
+
+//@ func equalMarks
+//@   props C08 C02 C17
+//@   ensures result == markEq(m1, m2)
+//@   loop 1: invariant forall j int :: 0 <= j && j < i ==> tmEq(m1.types[j], m2.types[j])
